@@ -150,6 +150,14 @@ func (h *stubHandler) Authenticate(p *csr.ReqParam) error {
 		panic("stub handler: Authenticate panic")
 	}
 	if !h.accept {
+		switch h.script["reject"] {
+		case "plain":
+			return errors.New("stub rejects with a plain error")
+		case "wrapped":
+			return fmt.Errorf("stub rejects: %w", errors.New("inner"))
+		case "value":
+			return *gensign.NewErrorWithMsg(gensign.HandlerAuthN, h.name, "stub rejects with a gensign.Error value")
+		}
 		return gensign.NewErrorWithMsg(gensign.HandlerAuthN, h.name, "stub rejects")
 	}
 	return nil
